@@ -126,23 +126,53 @@ def has_vars(case):
     return any(e["vars"] or "(?P<" in e["re"] for cj in case["or"] for cd in cj for e in cd["elems"])
 
 
-def model_text(case, cid, progs):
+def pre_string(e):
+    """the precondition finalize() compiles for an element with variables (after fixes/C04-4)"""
+    re_ = e["re"]
+    for v in reversed(e["vars"]):
+        re_ = re_[:v["pos"]] + "(?:(?s:.*))" + re_[v["pos"]:]
+    return re_
+
+
+def model_text(case, cid, progs, subs):
     """case file of the model driver; None if some program is missing"""
-    keys = {}
+    keys, names = {}, {}
     lines = ["CASE %d %d %s" % (cid, case["nconv"], case["conv"] or "-")]
-    for cj in case["or"]:
-        for cd in cj:
-            for e in cd["elems"]:
-                if e["re"] not in keys:
-                    pr = progs.get(e["re"])
-                    if pr is None or pr.startswith("ERR"):
-                        return None
-                    keys[e["re"]] = len(keys)
-                    lines.append("REGEX %d %s" % (keys[e["re"]], pr))
-    for cj in case["or"]:
-        lines.append("OR")
-        for cd in cj:
-            lines.append("COND %d %s" % (1 if cd["inv"] else 0, " ".join("%d:%d" % (keys[e["re"]], e["d"]) for e in cd["elems"])))
+
+    def name_id(n):
+        return names.setdefault(n, len(names))
+
+    def rx(restr):
+        if restr in keys:
+            return keys[restr]
+        pr = progs.get(restr)
+        if pr is None or pr.startswith("ERR"):
+            raise KeyError(restr)
+        fields = pr.rsplit(" ", 1)
+        ids = ",".join("-" if n == "-" else str(name_id(n)) for n in fields[1].split(","))
+        keys[restr] = len(keys)
+        lines.append("REGEX %d %s %s" % (keys[restr], fields[0], ids))
+        return keys[restr]
+
+    def elem_text(e):
+        if not e["vars"]:
+            return "F:%d:%d" % (rx(e["re"]), e["d"])
+        vkey = json.dumps(e["vars"], separators=(",", ":"))
+        entries = {}
+        for sb in subs or []:
+            if sb["re"] == e["re"] and sb["vars"] == vkey:
+                entries[".".join(v or "-" for v in sb["vals"])] = rx(sb["expr"])
+        table = ";".join("%s=%d" % (k, v) for k, v in entries.items())
+        return "S:%d:%d:%s:%s" % (rx(pre_string(e)), e["d"], ".".join(str(name_id(v["name"])) for v in e["vars"]), table)
+    try:
+        conds = []
+        for cj in case["or"]:
+            conds.append("OR")
+            for cd in cj:
+                conds.append("COND %d %s" % (1 if cd["inv"] else 0, " ".join(elem_text(e) for e in cd["elems"])))
+    except KeyError:
+        return None
+    lines += conds
     for s in case["streams"]:
         lines.append("STREAM")
         lines.append("RAW " + (",".join("%d:%s" % (d, hx(x)) for d, x in merge_raw(s["raw"])) or "-"))
@@ -184,9 +214,9 @@ def execute(cases, exe, tag, with_model=True):
         with open(mcf, "w") as f:
             for i, c in enumerate(cases):
                 o = impl.get(i)
-                if o is None or has_vars(c):
+                if o is None:
                     continue
-                t = model_text(c, i, o.get("progs") or {})
+                t = model_text(c, i, o.get("progs") or {}, o.get("subs"))
                 if t:
                     f.write(t)
         rc2, out2, msec = run([exe, mcf, mout], timeout=900)
